@@ -32,7 +32,7 @@ FUNCTIONS = ['matrixreps.matrix_rep', 'matrixreps.ordering_matrix', 'Algebra.mat
              'matrixreps.expr_as_matrix (sympy collect/coeff path, numeric path, array path via sympy.lambdify)']
 ASSUMPTIONS = ['coefficients are reals; matrices are object ndarrays of solver terms', 'expr_as_matrix: f is linear in its last argument (as the API documents)',
                'numeric / array-valued other inputs are concrete small rationals (the numeric path allocates float arrays)']
-BOUNDS = {'quick': 'all (p,q,r) and all explicit signature orderings d<=3 (dense), d=4 all blade pairs for 4 signatures, d=5 sampled blade pairs; custom bases: named + sampled; 12 linear expressions x 4 algebras',
+BOUNDS = {'quick': 'all (p,q,r) and all explicit signature orderings d<=3 (dense), d=4 all blade pairs for 4 signatures, d=5 sampled blade pairs; custom bases: named + sampled; 12 linear expressions x 4 algebras; res_like in numeric and array modes; x named like the internal stand-ins; empty multivector; complex / captured-symbolic inputs (concrete)',
           'thorough': 'd=4 all (p,q,r), d=5 more pairs, 60 custom bases'}
 OUTSIDE = ['d > 5', 'expressions that are not linear in the last argument']
 OPTS = {'rlimit': 300_000_000, 'canary_every': 6, 'case_budget_s': 120}
